@@ -30,7 +30,9 @@ def handlers : List (String × (Json → R Json)) := [
   ("seed_order", Plot.hSeedOrder),
   ("style", Plot.hStyle),
   ("floor", Dispatch.hFloor),
-  ("kde", Kde.hKde)
+  ("kde", Kde.hKde),
+  ("poisson_mi", PoissonMI.hPoissonMI),
+  ("poisson_mi_args", PoissonMI.hPoissonMIArgs)
 ]
 
 def handle (j : Json) : Json :=
